@@ -37,20 +37,30 @@ def enc_entry(kind, e):
     return out
 
 
-def enc_case(sysd, op=None):
-    """sysd: dict(op, kind, lsq, names, r, c, A (r*c entries), b (entries))"""
+def enc_case(sysd, op=None, number=False):
+    """sysd: dict(op, kind, lsq, names, r, c, A (r*c entries), b (entries)).
+    number=True: the HARNESS form of a system solved at the container type (dsolve::<Number>): kind 3 / 4, every entry
+    `number`-encoded - a plain float where the entry has no variables, else the Dual2 / Dual."""
     op = sysd["op"] if op is None else op
     kind = sysd["kind"]
     akind = 0 if op in (1, 3, 8) else kind
-    out = [op, kind, (1 if sysd["lsq"] else 0) + 2 * sysd.get("layout", 0), len(sysd["names"])]
+    number = number and kind in (1, 2) and akind == kind
+    out = [op, (kind + 2 if kind == 1 else 3) if number else kind, (1 if sysd["lsq"] else 0) + 2 * sysd.get("layout", 0), len(sysd["names"])]
+    if number:
+        out[1] = 3 if kind == 2 else 4
+
+    def ent(k, e):
+        if number:
+            return [0, f2b(float(e[0]))] if not e[1] else [k] + enc_entry(k, e)
+        return enc_entry(k, e)
     for nm in sysd["names"]:
         out += enc_name(nm)
     out += [sysd["r"], sysd["c"]]
     for e in sysd["A"]:
-        out += enc_entry(akind, e)
+        out += ent(akind, e)
     out.append(len(sysd["b"]))
     for e in sysd["b"]:
-        out += enc_entry(kind, e)
+        out += ent(kind, e)
     return out
 
 
@@ -63,9 +73,41 @@ LAYOUTS = ["row-major", "column-major", "strided (every other column)", "row-rev
 
 def model_case(c):
     """the case as the model sees it: the memory layout in which the implementation is handed A (bits 1.. of the third
-    field) is no part of the mathematical system"""
+    field) is no part of the mathematical system; a system encoded for the container type (kind 3 / 4: entries
+    `number`-encoded) is the system of constant / dual entries of kind 2 / 1"""
     c = list(c)
     c[2] &= 1
+    if c[1] in (3, 4):
+        kind = 2 if c[1] == 3 else 1
+        i = 4
+        m = c[3]
+        for _ in range(m):
+            i += 1 + c[i]
+        r_, c_ = c[i], c[i + 1]
+        i += 2
+        out = c[:i]
+        out[1] = kind
+
+        def one(i):
+            tag = c[i]
+            if tag == 0:
+                return [0, c[i + 1]], i + 2                  # a constant: no variables, the value
+            nv = c[i + 1]
+            j = i + 2
+            for _ in range(nv):
+                j += 1 + c[j]
+            j += 1 + nv + (nv * nv if kind == 2 else 0)
+            return c[i + 1:j], j
+        for _ in range(r_ * c_):
+            e, i = one(i)
+            out += e
+        nb = c[i]
+        out.append(nb)
+        i += 1
+        for _ in range(nb):
+            e, i = one(i)
+            out += e
+        return out
     return c
 
 
@@ -572,11 +614,28 @@ def run(ctx):
     for s in systems:
         s["layout"] = rng.choice([0, 0, 0, 1, 1, 2, 3])
         ctx.count("memory layout of A: " + LAYOUTS[s["layout"]])
+    # THE GENERIC SOLVER AT THE CONTAINER TYPE (dsolve::<Number>): one dual-number system in four has a random subset of its
+    # entries turned into CONSTANTS (no variables) - the implementation receives them as Number::F64 next to Number::Dual /
+    # Number::Dual2 entries, the model as constant dual numbers (C18: the container's operations are the lifted ones)
+    paired = set(i for pr in pairs for i in pr)
+    for si, s in enumerate(systems):
+        if si in paired or s.get("scaling"):
+            continue
+        if s["op"] == 0 and s["kind"] in (1, 2) and not s["malformed"] and rng.random() < 0.3:
+            nA = len(s["A"])
+            mask = [rng.random() < 0.45 for _ in range(nA + len(s["b"]))]
+            if rng.random() < 0.5:
+                mask[:nA] = [True] * nA if rng.random() < 0.5 else mask[:nA]
+            s["A"] = [(e[0], [], [], []) if m else e for e, m in zip(s["A"], mask[:nA])]
+            s["b"] = [(e[0], [], [], []) if m else e for e, m in zip(s["b"], mask[nA:])]
+            s["as_number"] = True
+            ctx.count("systems solved at the container type Number (floats mixed with %s)" % KINDS[s["kind"]])
     cases = [enc_case(s) for s in systems]
+    hcases = [enc_case(s, number=s.get("as_number", False)) for s in systems]
     # the residual oracle runs on the real code only
     oracle_idx = [i for i, s in enumerate(systems) if s["op"] in (0, 1) and not s["malformed"] and not s.get("scaling")]
     oracle_cases = [enc_case(systems[i], op=7 if systems[i]["op"] == 0 else 8) for i in oracle_idx]
-    impl = run_harness("linalg", [line(c) for c in cases + oracle_cases])
+    impl = run_harness("linalg", [line(c) for c in hcases + oracle_cases])
     impl_or = impl[len(cases):]
     impl = impl[:len(cases)]
     sizes = [len(c) for c in cases]
@@ -584,7 +643,7 @@ def run(ctx):
     model = coq_eval("Run.RunLinalg", "runLinalg", [model_case(c) for c in cases], ctx.work, shard=shard, tag="c13")
 
     nbit = nlay = nlaytot = 0
-    for s, c, a, b in zip(systems, cases, impl, model):
+    for s, c, a, b in zip(systems, hcases, impl, model):
         ctx.evaluations += 1
         m = len(s["names"])
         op, kind = s["op"], s["kind"]
@@ -687,7 +746,10 @@ def run(ctx):
                            "harness_cmd": harness_cmd(enc_case(s, op=op))[:20000]})
             continue
         res, v = va
-        sol = split_out(impl[i], s["kind"], m, s["op"])[1][0]
+        so = split_out(impl[i], s["kind"], m, s["op"])
+        if so[0] != "Ok" or not so[1]:
+            continue          # the solve itself did not return a vector (reported by the comparison above)
+        sol = so[1][0]
         amax = max([abs(e[0]) for e in s["A"]] + [abs(g) for e in s["A"] for g in e[2]] + [1.0])
         xmax = max([abs(g) for e in sol for g in e] + [1.0])
         vmax = max([abs(g) for e in v for g in e] + [1.0])
@@ -752,7 +814,7 @@ def replay(ctx, rp):
         ctx.cleanup()
         return 0 if same else 1
     b = coq_eval("Run.RunLinalg", "runLinalg", [model_case(c)], ctx.work)[0]
-    kind, m = c[1], c[3]
+    kind, m = {3: 2, 4: 1}.get(c[1], c[1]), c[3]
     ca, va, _ = split_out(a, kind, m, op)
     cb, vb, _ = split_out(b, kind, m, op)
     same = ca == cb and (ca != "Ok" or (len(va) == len(vb) and all(vec_close(x, y) for x, y in zip(va, vb))))
